@@ -70,12 +70,12 @@ class Builder:
     def extract(self):
         u = self.u
         src = os.path.join(REPO, u.tu) if not u.driver else self._driver_tu()
-        self.db = AstDB(src, u.filter or 'Opm::', extra_inc=self.extra_inc)
+        self.db = AstDB(src, u.filter or ['Opm::'], extra_inc=self.extra_inc)
         tm = TypeMap(u.typemap)
         fns = {}
         decls = {}
         for fs in u.functions:
-            cands = self.db.functions(fs.qual, fs.sig)
+            cands = self.db.functions(fs.qual, fs.sig, need_body=('extern' not in fs.opts))
             # several identical dumps of one definition collapse by mangled name
             by_m = {}
             for c in cands:
@@ -85,7 +85,8 @@ class Builder:
                     u.name, len(by_m), fs.qual, ' sig=' + fs.sig if fs.sig else '',
                     [c.get('_qual') for c in by_m.values()][:6]))
             d = list(by_m.values())[0]
-            fns[d['mangledName']] = fs.cname
+            if not fs.slice:
+                fns[d['mangledName']] = fs.cname
             decls[fs.cname] = d
         loops = {}
         ghosts = {}
@@ -105,7 +106,12 @@ class Builder:
         self.tr = tr
         b = Built()
         for fs in u.functions:
-            f = tr.function(decls[fs.cname], fs.cname)
+            if 'extern' in fs.opts:
+                f = tr.proto_only(decls[fs.cname], fs.cname)
+            elif fs.slice:
+                f = tr.slice_function(decls[fs.cname], fs.cname, fs.slice, fs.exports)
+            else:
+                f = tr.function(decls[fs.cname], fs.cname)
             b.funcs[fs.cname] = f
             b.fnspecs[fs.cname] = fs
             for k in fs.loops:
@@ -199,8 +205,10 @@ class Builder:
         if f.ret != 'void':
             out.append('    %s verif_ret;' % f.ret)
         for nm, e in fs.ensures:
-            if '@' in nm and self.curmode not in nm.split('@')[1].split('|'):
-                continue
+            if '@' in nm:
+                tags = nm.split('@')[1].split('|')
+                if 'ENFORCE' in tags or (self.curmode not in tags and set(tags) - {'ENFORCE'}):
+                    continue          # not part of what callers may assume
             for full, v in olds.items():
                 e = e.replace(full, v)
             out.append('    __CPROVER_assume(%s);' % subst(e))
@@ -268,7 +276,8 @@ class Builder:
         for nm, e in fs.ensures:
             if '@' in nm:
                 nm, only = nm.split('@')
-                if mode not in only.split('|'):
+                tags = set(only.split('|')) - {'ENFORCE'}
+                if tags and mode not in tags:
                     continue
             for full, v in olds.items():
                 e = e.replace(full, v)
@@ -302,7 +311,7 @@ class Builder:
     def unit_file(self, name, mode, roots, replaced, harness_text, caller, extra=''):
         self.curmode = mode
         need = self.closure(list(roots) + [c for c in self.tr.global_fn_deps if c not in replaced], replaced)
-        txt = [self.header(mode), self.common()]
+        txt = [self.header(mode, getattr(self, 'extra_defs', [])), self.common()]
         used_stubs = set()
         for c in need:
             used_stubs |= (self.b.funcs[c].calls & set(replaced))
@@ -310,6 +319,8 @@ class Builder:
         for cn in self.order(used_stubs):
             txt.append(self.stub(cn, caller))
         for cn in self.order(need):
+            if self.b.funcs[cn].text is None:
+                raise ExtractError('%s: %s belongs to another translation unit and has no contract to stand in for it' % (self.u.name, cn))
             txt.append('/* ---- extracted from %s:%s  %s ---- */' % (
                 (self.b.funcs[cn].file or '').replace(REPO + '/', ''), self.b.funcs[cn].line, self.b.funcs[cn].qual))
             txt.append('static ' + self.b.funcs[cn].text)
@@ -325,7 +336,7 @@ class Builder:
         jobs = []
         contracted = [cn for cn, fs in b.fnspecs.items() if fs.contracted]
         for cn, fs in b.fnspecs.items():
-            if not fs.ensures or 'noenforce' in fs.opts:
+            if not fs.ensures or 'noenforce' in fs.opts or 'extern' in fs.opts:
                 continue
             modes = (fs.opts.get('mode') or u.mode).split(',')
             for mode in modes:
@@ -334,7 +345,9 @@ class Builder:
                 else:
                     replaced = [c for c in contracted if c != cn and c not in fs.inline]
                 h = self.enforce(cn, mode)
+                self.extra_defs = ['#define VERIF_ENFORCING_%s 1' % cn]
                 p = self.unit_file('%s_%s' % (cn, mode), mode, [cn], replaced, h, cn)
+                self.extra_defs = []
                 fl = list(u.flags) + (fs.opts.get('flags', '').replace(',', ' ').split() if fs.opts.get('flags') else [])
                 j = Job(u.name, '%s[%s]' % (cn, mode), 'enforce', mode, p, fl,
                         int(fs.opts.get('timeout', u.timeout)))
